@@ -3,8 +3,8 @@
    S lines: a boolean checker over QN (exact rationals) applied to the IMPLEMENTATION's outputs, which the
             harness embeds in the term; when the checker accepts, the S line re-prints those outputs in the
             format of the I line (so I = S), otherwise it prints REJECT and the first failing query.
-   The checkers are [Interp.Spec.*] below; Proofs/Interp*.v proves that the QN model satisfies them with
-   tolerance 0 and that they say what Props/C14.v states. *)
+   The checkers are [Spec.*] below; Proofs/InterpSpec.v proves them sound: a [true] verdict implies the statements
+   of Props/C14.v (section 7 there), up to the tolerance [tolQ] that absorbs binary64 rounding. *)
 From Coq Require Import ZArith QArith Qminmax Qabs List String Bool Floats Arith.
 From RC Require Import Base.Show Base.Res Base.Num Model.Interp.
 Import ListNotations.
